@@ -70,6 +70,24 @@ def check_model(case):
     f = cmp_node(cells[-1], cp, 'copy of root')
     if f:
         return f
+    # ... and so does a cell taken back from a slice of it: an exotic cell stays the exotic cell it was (type, mask, hashes)
+    from pytoniq_core.boc.slice import Slice
+    n = len(cells)
+    for k in sorted({n - 1, 0, n // 2, max(0, n - 2)}):
+        r, l = cells[k], lib[k]
+        for name, thunk in (('begin_parse.to_cell', lambda: l.begin_parse().to_cell()),
+                            ('to_slice.to_cell', lambda: l.to_slice().to_cell()),
+                            ('Slice.from_cell.to_cell', lambda: Slice.from_cell(l).to_cell()),
+                            ('begin_parse.copy.to_cell', lambda: l.begin_parse().copy().to_cell()),
+                            ('copy', lambda: l.copy())):
+            ok, d = call(thunk)
+            if not ok:
+                return Fail(f'derive-raises/{name}/type{r.type}', f'{exc_sig(d)}: {d!r}')
+            if d.type_ != r.type:
+                return Fail(f'derived/type-lost/{name}/type{r.type}', f'node {k}: type_ {d.type_} instead of {r.type}')
+            f = cmp_node(r, d, f'{name} of node {k}')
+            if f:
+                return Fail('derived/' + f.signature + '/' + name, f.detail)
     # parse a reference-encoded BoC of the root
     boc = refboc.encode([cells[-1]], has_crc=True)
     ok, parsed = call(Cell.one_from_boc, boc)
